@@ -445,3 +445,78 @@ pub proof fn theorem_rd_sound(f: Seq<u8>, p: int, acc: Option<Seq<u8>>)
         }
     }
 }
+
+// ---------------------------------------------------------------------------------------------
+// C16: re-using a log for appending.  `rd_end(f, p) >= f.len()` says that a scan from p does not
+// end in the middle of a fragment (the real reader's `ended_mid_fragment` flag is false exactly
+// then, U05).  For such a file the record a re-opened writer appends is the next record the
+// reader returns; for a file with a torn tail no such statement holds, which is why recovery must
+// not reuse it.
+// ---------------------------------------------------------------------------------------------
+pub proof fn lemma_hdr_pos_between(p: int, l: int)
+    requires 0 <= p <= l <= hdr_pos(p)
+    ensures hdr_pos(l) == hdr_pos(p)
+{
+    let b = blk();
+    let off = p % b;
+    if b - off < HEADER_LENGTH_BYTES {
+        vstd::arithmetic::div_mod::lemma_fundamental_div_mod(p, b);
+        let k = p / b;
+        // p = k*b + off, hdr_pos(p) = (k+1)*b
+        if l == p + (b - off) {
+            assert(l == (k + 1) * b) by (nonlinear_arith) requires l == p + (b - off), p == b * k + off;
+            vstd::arithmetic::div_mod::lemma_mod_multiples_basic(k + 1, b);
+        } else {
+            let o2 = off + (l - p);
+            assert(l == b * k + o2) by (nonlinear_arith) requires p == b * k + off, o2 == off + (l - p);
+            vstd::arithmetic::div_mod::lemma_fundamental_div_mod_converse(l, b, k, o2);
+        }
+    }
+}
+
+pub proof fn lemma_rd_same_header(f: Seq<u8>, p1: int, p2: int, acc: Option<Seq<u8>>)
+    requires 0 <= p1, 0 <= p2, hdr_pos(p1) == hdr_pos(p2)
+    ensures rd(f, p1, acc) == rd(f, p2, acc)
+{
+}
+
+/// [append-after-a-clean-end] the record appended by a writer re-opened on a log that does not end
+/// inside a fragment is the next record the reader returns
+pub proof fn theorem_append_after_clean_end(f: Seq<u8>, p: int, acc: Option<Seq<u8>>, d: Seq<u8>)
+    requires 0 <= p <= f.len(), rd(f, p, acc) is Eof, rd_end(f, p) >= f.len()
+    ensures rd(f + enc((f.len() as int) % blk(), d, true), p, acc)
+        == RdOutcome::Record(d, (f.len() + enc((f.len() as int) % blk(), d, true).len()) as int)
+    decreases f.len() - p
+{
+    let l = f.len() as int;
+    let e = enc(l % blk(), d, true);
+    let g = f + e;
+    let h = hdr_pos(p);
+    lemma_hdr_pos(p);
+    if phys_complete(f, h) {
+        let q = h + HEADER_LENGTH_BYTES + phys_len(f, h);
+        let pl = phys_payload(f, h);
+        assert(g.subrange(h + 4, h + 6) =~= f.subrange(h + 4, h + 6));
+        assert(g.subrange(h, h + 4) =~= f.subrange(h, h + 4));
+        assert(phys_payload(g, h) =~= pl);
+        assert(g[h + 6] == f[h + 6]);
+        assert(phys_complete(g, h));
+        let acc2: Option<Seq<u8>> = if !phys_valid(f, h) { None } else {
+            match bt_of_code(f[h + 6]) {
+                BlockType::First => Some(pl),
+                BlockType::Middle => if acc is Some { Some(acc.unwrap() + pl) } else { None },
+                _ => None,
+            }
+        };
+        assert(rd(f, p, acc) == rd(f, q, acc2));
+        assert(rd(g, p, acc) == rd(g, q, acc2));
+        theorem_append_after_clean_end(f, q, acc2, d);
+    } else {
+        // the scan of f stops at h >= l: the writer's output starts at l, whose next header is h too
+        lemma_hdr_pos_between(p, l);
+        lemma_rd_same_header(g, p, l, acc);
+        assert(g.subrange(l, l + e.len()) =~= e);
+        lemma_rd_complete(g, l, d, true, acc);
+        assert(acc_payload(true, acc) + d =~= d);
+    }
+}
